@@ -14,7 +14,7 @@
 (*    c of the same version, in the order of IOEnv.KINDS): the triples     *)
 (*    (for a before or equal to b in that order; both calls are symmetric).*)
 (***************************************************************************)
-EXTENDS ProblemKindLatticeTables, ProblemKindLattice, SequencesExt
+EXTENDS ProblemKindLattice, ProblemKindLatticeTables, SequencesExt
 CONSTANTS Triples,     \* ask for the third-kind rows
           WithBounds   \* include the compound bound queries 5..8
 Key(k)  == k.dv * NMask + MaskOf(k.f)
